@@ -782,8 +782,11 @@ def policy(rng, role, st, nin, nout, peer, k):
     if kind == "send":
         return [[2, 0, 0, 0, k, 0]]
     if kind == "sendsr":
+        x = rng.random()
+        if x < 0.25:
+            return [[2, 0, max(1, nout - 1), 1, k, 0]]          # application-level PossDup resend
         s = rng.choice([nout, nout, nout + 3, max(1, nout - 1)])
-        return [[2, 4, s, 0, s + rng.randrange(1, 3), 1]]
+        return [[2, 4, s, 0, s + rng.randrange(1, 3), 1 if x < 0.6 else 0]]
     if kind == "discl":
         return [[3, 1]]
     if kind == "disc":
@@ -981,15 +984,9 @@ def live_before(h, j):
     return (s[2], s[3])
 
 
-def aborted_resend(h, dur):
-    """An inbound ResendRequest in the durable prefix whose servicing rewound the counter and never restored it."""
-    ops = h["ops"]
-    for i in sorted({e[0] for e in dur}):
-        if ops[i][0] == 1 and ops[i][1] == 3:
-            both = [e for e in h["flat"] if e[0] == i and e[1] == 14]
-            if len(both) == 1:
-                return i
-    return None
+def journaled_kind(fr):
+    """A frame send_msg journals: not a PossDup copy, not a gap fill."""
+    return isinstance(fr, list) and not fr[2] and not (fr[0] == 4 and fr[4])
 
 
 def classify(h, pt, kind, detail=None):
@@ -1004,14 +1001,14 @@ def classify(h, pt, kind, detail=None):
             return "D20_app_sequence_reset_uncounted"
     # D14: death after a transport write whose journal write has not committed
     if kind in ("reuse", "nout") and pkind == "c":
-        lw = max([i for i, e in enumerate(pre) if isinstance(e[1], list)], default=None)
+        lw = max([i for i, e in enumerate(pre) if journaled_kind(e[1])], default=None)
         if lw is not None and not any(e[1] == 17 for e in pre[lw + 1:]):
             return "D14_crash_between_write_and_journal"
     if kind in ("reuse", "nout", "inactive"):
         # aftermath of D20: a later journal write of the old object hit the row an application-sent SequenceReset
         # left under a number it did not consume (DuplicateSeqNoError: the live counter moved, the stored one did not)
         for i in sorted({e[0] for e in dur}):
-            if ops[i][0] == 2 and ops[i][1] == 4:
+            if ops[i][0] == 2 and ops[i][1] == 4 and not ops[i][3] and not ops[i][5]:
                 for t in range(len(pre)):
                     failed = (pre[t + 1][1] != 13) if t + 1 < len(pre) else (not infl)
                     if pre[t][0] > i and pre[t][1] == 11 and failed:
@@ -1019,11 +1016,7 @@ def classify(h, pt, kind, detail=None):
     wout = last_writer(dur, (13, 14))
     if kind in ("reuse", "nout") and wout is not None:
         o = ops[wout]
-        if o[0] == 1 and o[1] == 3 and infl and wout == j:
-            return "D12_resend_servicing_rewinds_counter"
-        if aborted_resend(h, dur) is not None:
-            return "D12_resend_servicing_rewinds_counter"
-        if o[0] == 2 and o[1] == 4:
+        if o[0] == 2 and o[1] == 4 and not o[3] and not o[5]:
             return "D20_app_sequence_reset_uncounted"
     win = last_writer(dur, (12, 14))
     if kind in ("nin", "rr", "inactive") and win is not None:
@@ -1035,7 +1028,7 @@ def classify(h, pt, kind, detail=None):
     if kind == "inactive" and detail:
         # the new object's Logon hits a journal row left by an application-sent SequenceReset (DuplicateSeqNoError)
         for i in sorted({e[0] for e in dur}):
-            if ops[i][0] == 2 and ops[i][1] == 4 and ops[i][2] >= detail[1]:
+            if ops[i][0] == 2 and ops[i][1] == 4 and not ops[i][3] and not ops[i][5] and ops[i][2] >= detail[1]:
                 return "D20_app_sequence_reset_uncounted"
     if kind in ("rr", "inactive"):
         # the first frame after which the endpoint's expected number and a correct receiver's differ
@@ -1049,6 +1042,13 @@ def classify(h, pt, kind, detail=None):
             # a restart inside the history made a stored counter live: the class of that restart point
             return classify(h, ["g", nxt - 1, -1, False], "nin")
         if nxt <= end and ops[nxt][0] == 1:
+            # D20 aftermath inside inbound processing: a reply sent while the frame was processed (Logon reply, Heartbeat,
+            # ResendRequest) hit the journal row of an application-sent reset-mode SequenceReset (DuplicateSeqNoError,
+            # swallowed): the handler is aborted and the frame is not counted
+            hit = any(pre[t][0] == nxt and pre[t][1] == 11 and (t + 1 >= len(pre) or pre[t + 1][1] != 13)
+                      for t in range(len(pre)))
+            if hit and any(ops[i][0] == 2 and ops[i][1] == 4 and not ops[i][3] and not ops[i][5] for i in range(nxt)):
+                return "D20_app_sequence_reset_uncounted"
             if ops[nxt][1] == 6:
                 return "D22_peer_logout_uncounted"
             if ops[nxt][1] == 4 and (ops[nxt][2] != live_before(h, nxt)[0] or ops[nxt][4] != ops[nxt][2] + 1):
@@ -1183,7 +1183,7 @@ CURATED = [
     (2, LOGON_A + [[1, 0, 2, 0, 1, 0], [1, 4, 3, 0, 9, 0]]),
     (2, LOGON_A + [[1, 4, 2, 0, 2, 1], [1, 0, 2, 0, 1, 0]]),
     (2, LOGON_A + [[1, 0, 2, 0, 1, 0], [1, 0, 3, 0, 2, 0], [1, 4, 2, 1, 3, 1]]),
-    # D12: peer ResendRequest (all, bounded, twice over the same range, beyond, non-positive)
+    # peer ResendRequest (all, bounded, twice over the same range, beyond, non-positive): D12 before its repair
     (2, LOGON_A + [[2, 0, 0, 0, 1, 0], [2, 0, 0, 0, 2, 0], [2, 0, 0, 0, 3, 0], [1, 3, 2, 0, 2, 0]]),
     (2, LOGON_A + [[2, 0, 0, 0, 1, 0], [2, 0, 0, 0, 2, 0], [2, 0, 0, 0, 3, 0], [1, 3, 2, 0, 2, 2], [2, 0, 0, 0, 4, 0]]),
     (2, LOGON_A + [[2, 0, 0, 0, 1, 0], [2, 0, 0, 0, 2, 0], [1, 3, 2, 0, 2, 0], [1, 3, 3, 0, 2, 0], [2, 0, 0, 0, 3, 0]]),
@@ -1191,9 +1191,14 @@ CURATED = [
     (2, LOGON_A + [[2, 0, 0, 0, 1, 0], [1, 3, 2, 0, 6, 0], [2, 0, 0, 0, 2, 0]]),
     (2, LOGON_A + [[2, 0, 0, 0, 1, 0], [1, 3, 2, 0, 0, 0], [2, 0, 0, 0, 2, 0]]),
     (1, LOGON_I + [[2, 0, 0, 0, 1, 0], [1, 2, 2, 0, 5, 0], [2, 0, 0, 0, 2, 0], [1, 3, 3, 0, 1, 0]]),
-    # D20: application-sent SequenceReset
+    # D20: application-sent SequenceReset (gap fill: not journaled, number not consumed; reset mode: journaled under its
+    # own number); application-level PossDup resend (not journaled)
     (2, LOGON_A + [[2, 0, 0, 0, 1, 0], [2, 4, 3, 0, 5, 1], [2, 0, 0, 0, 2, 0]]),
+    (2, LOGON_A + [[2, 0, 0, 0, 1, 0], [2, 4, 3, 0, 5, 0], [2, 0, 0, 0, 2, 0]]),
     (1, LOGON_I + [[2, 4, 5, 0, 7, 1], [2, 0, 0, 0, 1, 0]]),
+    (1, LOGON_I + [[2, 4, 5, 0, 7, 0], [2, 0, 0, 0, 1, 0], [2, 0, 0, 0, 2, 0], [2, 0, 0, 0, 3, 0]]),
+    (2, LOGON_A + [[2, 0, 0, 0, 1, 0], [2, 0, 2, 1, 1, 0], [2, 0, 0, 0, 2, 0]]),
+    (2, LOGON_A + [[2, 4, 2, 0, 3, 0], [3, 0], [0], [1, 5, 2, 0, 0, 0], [1, 6, 3, 0, 0, 0]]),
     # D22: peer Logout, then restart / reconnect
     (2, LOGON_A + [[1, 0, 2, 0, 1, 0], [1, 6, 3, 0, 0, 0]]),
     (1, LOGON_I + [[2, 0, 0, 0, 1, 0], [1, 6, 2, 0, 0, 0], [0], [2, 5, 0, 0, 0, 0], [1, 5, 3, 0, 0, 0]]),
@@ -1211,11 +1216,11 @@ WITNESSES = {
     "C09_gapfill_lag_refuted": (2, LOGON_A + [[1, 4, 2, 0, 6, 1]], ["g", 2, -1, False],
                                 lambda h, res: h["steps"][2][2:5] == [6, 2, 2] and res["restored"][0] == 3
                                 and any(f[0] == 3 for f in res["wire"])),
-    "C09_resend_abort_refuted": (2, LOGON_A + [[2, 0, 0, 0, 1, 0], [2, 0, 0, 0, 2, 0], [1, 3, 2, 0, 3, 0], [1, 3, 3, 0, 2, 0]],
+    "C09_resend_keeps_journal": (2, LOGON_A + [[2, 0, 0, 0, 1, 0], [2, 0, 0, 0, 2, 0], [1, 3, 2, 0, 3, 0], [1, 3, 3, 0, 2, 0]],
                                  ["g", 5, -1, False],
-                                 lambda h, res: h["steps"][4][3] == 4 and h["steps"][5][1] == 10 and h["steps"][5][3] == 2
-                                 and h["steps"][5][5] == 2),
-    "C09_app_seqreset_refuted": (2, LOGON_A + [[2, 4, 2, 0, 5, 1]], ["g", 2, -1, False],
+                                 lambda h, res: h["steps"][5][1] == 17 and h["steps"][5][3] == 4 and h["steps"][5][5] == 3
+                                 and res["restored"] == [4, 4]),
+    "C09_app_seqreset_refuted": (2, LOGON_A + [[2, 4, 2, 0, 5, 0]], ["g", 2, -1, False],
                                  lambda h, res: h["steps"][2][3] == 2 and h["steps"][2][5] == 2 and res["restored"][1] == 3),
     "C09_peer_logout_uncounted_refuted": (2, LOGON_A + [[1, 6, 2, 0, 0, 0]], ["g", 2, -1, False],
                                           lambda h, res: h["steps"][2][2] == 2 and res["restored"][0] == 2
